@@ -313,6 +313,31 @@ func init() {
 				},
 			},
 			{
+				// ids one or two bits away from an id the package does encode: a dispatcher that masks, shifts or
+				// compares part of the id maps them to a type
+				Name: "nearmissids", Exhaustive: "every defined id (and its response twin) of every family with each single bit flipped and with each pair of bits among 24..31 flipped",
+				N: func(fw.Tier) uint64 { return 5 },
+				Run: func(c *fw.Case) {
+					fam := pdus.Families[c.Idx%5]
+					n := 0
+					for _, t := range ts().ByFamily[fam] {
+						for b := uint(0); b < 32; b++ {
+							c10Unknown(c, ts(), fam, t.Cmd^(1<<b))
+							n++
+						}
+						for b1 := uint(24); b1 < 32; b1++ {
+							for b2 := b1 + 1; b2 < 32; b2++ {
+								c10Unknown(c, ts(), fam, t.Cmd^(1<<b1)^(1<<b2))
+								n++
+							}
+						}
+						c10Unknown(c, ts(), fam, t.Cmd&0x0fffffff|0x10000000)
+						c10Unknown(c, ts(), fam, t.Cmd|0x70000000)
+					}
+					c.Cover(fmt.Sprintf("nearmissids/%s/%d", fam, n))
+				},
+			},
+			{
 				Name: "randomids", N: q(100000, 100000000),
 				Run: func(c *fw.Case) {
 					fam := pdus.Families[c.Idx%5]
